@@ -124,6 +124,11 @@ var c12 = gen.Register(&gen.Check[caseC12]{
 	Fixed: func() []caseC12 {
 		z := new(big.Int)
 		two := big.NewInt(2)
+		var dictCases []caseC12
+		for _, v := range gen.DictFixed(ref.P, gen.DictStride()) {
+			dictCases = append(dictCases, mk12("invert", v, z), mk12("square", v, z), mk12("mul", v, v), mk12("neg", v, z), mk12("sqrtratio", v, two),
+				caseC12{Op: "mul", U: FV{Hex: gen.H(v), Mont: true}, V: fv(v), Prior: fv(two)}, caseC12{Op: "bytes", U: FV{Hex: gen.H(v), Mont: true}, V: fv(z), Prior: fv(two)})
+		}
 		out := []caseC12{
 			mk12("add", pm1, bigOne), mk12("add", pm1, pm1), mk12("sub", z, bigOne), mk12("sub", bigOne, pm1), mk12("mul", pm1, pm1),
 			mk12("square", pm1, z), mk12("neg", z, z), mk12("neg", bigOne, z), mk12("neg", pm1, z),
@@ -155,6 +160,7 @@ var c12 = gen.Register(&gen.Check[caseC12]{
 				out = append(out, c)
 			}
 		}
+		out = append(out, dictCases...)
 		return out
 	},
 	Required: []string{"mont-operand", "alias", "wrap:add", "wrap:sub", "sqrt:square", "sqrt:non-square", "equals:one-mont-limb", "op:invert"},
@@ -356,6 +362,11 @@ var c12bytes = gen.Register(&gen.Check[caseC12bytes]{
 		}
 		for _, v := range append(gen.WordProducts(ref.P, 64, gen.Neighbours5), gen.WordProducts(ref.P, 32, gen.Neighbours3)...) {
 			out = append(out, caseC12bytes{Kind: "parse32", Data: gen.H(v)})
+		}
+		for _, v := range gen.DictFixed(ref.P, gen.DictStride()) {
+			out = append(out, caseC12bytes{Kind: "parse32", Data: gen.H(v)})
+			w := append(append([]byte{}, ref.Bytes32(v)[16:]...), ref.Bytes32(v)...)
+			out = append(out, caseC12bytes{Kind: "wide48", Data: hex.EncodeToString(w)})
 		}
 		ff := make([]byte, 48)
 		for i := range ff {
